@@ -257,6 +257,29 @@ func isolationMain(args []string) error {
 						mu.Unlock()
 					}
 				}()
+				// the empty filter is a query like any other: every Parse gives the caller a value of its own -- one caller paging
+				// it must not change what another caller's unpaged query returns
+				if eq, err := ast.Parse(env.S.People, ""); err == nil {
+					pager := (i+h)%2 == 0
+					if pager {
+						eq.SetSkip(0)
+						eq.SetLimit(1)
+					}
+					_ = env.Db.View(func(tx *bbolt.Tx) error {
+						ids, n, err := env.S.People.QueryIdsC(tx, eq)
+						if err == nil && !pager && int64(len(ids)) != n {
+							mu.Lock()
+							failures = append(failures, fmt.Sprintf("an unpaged query with the empty filter returned %d of %d rows", len(ids), n))
+							mu.Unlock()
+						}
+						if err == nil && pager && len(ids) > 1 {
+							mu.Lock()
+							failures = append(failures, fmt.Sprintf("a query limited to 1 row returned %d", len(ids)))
+							mu.Unlock()
+						}
+						return nil
+					})
+				}
 				_ = env.S.People.GetSymbol([]string{"name", "roles", "boss.name", "reports.name", "tags.x"}[i%5])
 				_ = env.S.Staff.GetSymbol("grade")
 				atomic.AddInt64(&helperCalls, 1)
